@@ -139,6 +139,8 @@ package linter
 
 //@ func (*Context).SetFileInfo
 //@   prop C03
+//@   ensures @objects-rebuilt-per-file c.Require.PkgObjects ==> fresh(c.PkgObjects)
+//@   ensures @renames-rebuilt-per-file c.Require.PkgRenames ==> fresh(c.PkgRenames)
 //@   nosafety import tables are built with unchecked assertions that hold for well-typed files (see resolvePkgObjects)
 //@   requires c != nil && f != nil
 //@   assigns c.Filename, c.PkgObjects, c.PkgRenames
